@@ -101,24 +101,130 @@ def _writer_facts(prog, name):
     return facts
 
 
+def _cells_by_value(prog, name):
+    """The table cells a writer formats, from the folded function - however its loops are spelled (nested for loops, a join over a
+    comprehension, a helper): every ``fmt % y[I, F]`` with y the matrix returned by _get_x_y.  -> list of (format, rows_ok, cols_ok)
+    where rows_ok / cols_ok say that I runs over range(len(x)) and F over range(y.shape[1])."""
+    site = "verif.output.Output." + name
+    ev = trace.trace(prog, site, loop_mode="unroll2")
+    def iters_for(e):
+        """loop variable -> iteration spaces of the loops that ENCLOSE this event (a name may be reused by another loop elsewhere)"""
+        enclosing = set(id(n_) for n_ in (e.get("loops") or []))
+        out = {}
+        for lp in ev.loops:
+            st = lp["node"]
+            if id(st) in enclosing and isinstance(st, ast.For) and isinstance(lp["iter"], Rat):
+                for t_ in ast.walk(st.target):
+                    if isinstance(t_, ast.Name):
+                        out.setdefault(t_.id, set()).add(lp["iter"].key())
+        return out
+    vals = []
+    for e in ev.events:
+        li = None
+        for k_ in ("value", "operand"):
+            if isinstance(e.get(k_), Rat):
+                li = li if li is not None else iters_for(e)
+                vals.append((e[k_], li))
+        for a in e.get("args") or []:
+            if isinstance(a, Rat):
+                li = li if li is not None else iters_for(e)
+                vals.append((a, li))
+    cells = {}
+
+    def opaque_cells(v):
+        """'%-*.4g| ' % (lengths[f], y[i, f]) is kept as a name-free template expr:'...' % (_v0[_v1], _v2[_v3, _v1])(args): read y, i, f back"""
+        out = []
+        for a in q.atoms(v):
+            if not a.func.startswith("expr:") or " % " not in a.func:
+                continue
+            try:
+                tree = ast.parse(a.func[5:], mode="eval").body
+            except SyntaxError:
+                continue
+            if not (isinstance(tree, ast.BinOp) and isinstance(tree.op, ast.Mod) and isinstance(tree.left, ast.Constant) and isinstance(tree.left.value, str)):
+                continue
+
+            def arg_of(n_):
+                if isinstance(n_, ast.Name) and n_.id.startswith("_v") and n_.id[2:].isdigit() and int(n_.id[2:]) < len(a.args):
+                    return a.args[int(n_.id[2:])]
+                return None
+            for sub in ast.walk(tree.right):
+                if isinstance(sub, ast.Subscript) and isinstance(sub.slice, ast.Tuple) and len(sub.slice.elts) == 2:
+                    ymat, i_, f_ = arg_of(sub.value), arg_of(sub.slice.elts[0]), arg_of(sub.slice.elts[1])
+                    if isinstance(ymat, Rat) and isinstance(i_, Rat) and isinstance(f_, Rat) and "_get_x_y(" in ymat.key():
+                        out.append(form.atom("mod", (form.apply("str:" + repr(tree.left.value), []), form.apply("getitem", [ymat, (i_, f_)]))))
+        return out
+    for v, loop_iters in vals:
+        maps = [a for a in q.atoms(v, "map") if len(a.args) >= 2 and isinstance(a.args[0], Rat) and isinstance(a.args[1], Rat)]
+        for a in list(q.atoms(v, "mod")) + opaque_cells(v):
+            if len(a.args) != 2 or not isinstance(a.args[0], Rat):
+                continue
+            if isinstance(a.args[1], tuple):
+                # "%-*.4g| " % (width, y[i, f]): the formatted value is the last element
+                cand = [x for x in a.args[1] if isinstance(x, Rat) and x.as_atom("getitem") is not None and "_get_x_y(" in x.key()]
+                if len(cand) != 1:
+                    continue
+                a = form.atom("mod", (a.args[0], cand[0]))
+            if not isinstance(a.args[1], Rat):
+                continue
+            fmt = symeval._strval(a.args[0])
+            g = a.args[1].as_atom("getitem")
+            if fmt is None or g is None or not isinstance(g.args[1], tuple) or len(g.args[1]) != 2 or not isinstance(g.args[0], Rat):
+                continue
+            ymat = g.args[0]
+            yk = ymat.key()
+            if "_get_x_y(" not in yk:
+                continue
+            xk = yk.replace("),1)", "),0)") if yk.endswith(",1)") else None
+
+            def ranges_of(ix):
+                if not isinstance(ix, Rat):
+                    return None
+                k = ix.key()
+                if not k.startswith("$"):
+                    return None
+                nm = k[1:].split("#")[0]
+                out = set(loop_iters.get(nm, ()))
+                for mp in maps:
+                    if any(b.func == "$" + nm for b in q.atoms(mp.args[0])):
+                        out.add(mp.args[1].key())
+                return out
+            ri, rf = ranges_of(g.args[1][0]), ranges_of(g.args[1][1])
+            want_rows = {"call:range(len(%s))" % xk, "call:range(0,len(%s))" % xk} if xk else set()
+            want_cols = {"call:range(getitem(attr:shape(%s),1))" % yk, "call:range(0,getitem(attr:shape(%s),1))" % yk}
+            ck = (fmt, g.args[1][0].key() if isinstance(g.args[1][0], Rat) else "?", g.args[1][1].key() if isinstance(g.args[1][1], Rat) else "?")
+            # (the cell travels on inside the accumulated string: the occurrence inside its own loops is the one that tells)
+            prev = cells.get(ck, (False, False))
+            cells[ck] = (prev[0] or (bool(ri) and ri <= want_rows), prev[1] or (bool(rf) and rf <= want_cols))
+    return [(k[0], v[0], v[1]) for k, v in sorted(cells.items())]
+
+
 def check_writers(ctx):
     prog = ctx.prog
     m = prog.module("verif.output")
     t = _writer_facts(prog, "text")
     c = _writer_facts(prog, "csv")
+    by_value = {}
+    for name in ("text", "csv"):
+        try:
+            by_value[name] = _cells_by_value(prog, name)
+        except (symeval.Undecided, AnalysisError):
+            by_value[name] = []
     for name, fx, fmt_re, digits in (("text", t, r"%-\*\.4g", 4), ("csv", c, r"%g", 6)):
         site = "verif.output.Output." + name
         loc = prog.loc(m, fx["node"])
-        ctx.ob("C12.1", site, fx["row_loop"] is not None, "one output row per slice: for i in range(len(x))", loc=loc, msg="%s: the row loop over range(len(x)) is gone" % name)
-        if fx["row_loop"] is not None:
-            inner = [n for n in ast.walk(fx["row_loop"]) if n in fx["col_loops"]]
-            ctx.ob("C12.1", site, len(inner) == 1, "inside each row one cell per input: for f in range(y.shape[1])", loc=loc, msg="%s: the column loop is not nested in the row loop" % name)
-            rl = norm(fx["row_loop"])
+        cells = by_value.get(name) or []
+        cells_ok = bool(cells) and len(set(c_[0] for c_ in cells)) == 1 and all(c_[1] and c_[2] for c_ in cells)
+        ctx.ob("C12.1", site, fx["row_loop"] is not None or cells_ok, "one output row per slice: for i in range(len(x))", loc=loc, msg="%s: the row loop over range(len(x)) is gone" % name)
+        if fx["row_loop"] is not None or cells_ok:
+            inner = [n for n in ast.walk(fx["row_loop"]) if n in fx["col_loops"]] if fx["row_loop"] is not None else []
+            ctx.ob("C12.1", site, len(inner) == 1 or cells_ok, "inside each row one cell per input: for f in range(y.shape[1])", loc=loc, msg="%s: the column loop is not nested in the row loop" % name)
+            rl = norm(fx["row_loop"]) if fx["row_loop"] is not None else fx["src"]
             ctx.ob("C12.1", site, "descs[" in rl and "][i]" in rl, "the row index subscripts the descriptors", loc=loc, msg="%s: descriptors are not indexed by the row index" % name)
         ok = len(fx["cell_formats"]) == 1 and fx["cell_formats"][0][1].replace(" ", "").endswith("y[i,f]") or \
             (len(fx["cell_formats"]) == 1 and "y[i, f]" in fx["cell_formats"][0][1])
-        ctx.ob("C12.1", site, ok, "cell (row i, column f) prints y[i, f]", loc=loc, msg="%s prints %s" % (name, fx["cell_formats"]))
-        fm = fx["cell_formats"][0][0] if fx["cell_formats"] else ""
+        ctx.ob("C12.1", site, ok or cells_ok, "cell (row i, column f) prints y[i, f]", loc=loc, msg="%s prints %s" % (name, fx["cell_formats"] or cells))
+        fm = fx["cell_formats"][0][0] if fx["cell_formats"] else (cells[0][0] if cells_ok else "")
         ctx.ob("C12.2", site, re.search(fmt_re, fm) is not None and (name == "text" or ".") , "%s cells are formatted with %s significant digits (%s)" % (name, digits, fm.strip()), loc=loc,
                msg="%s cell format is %r, documented precision is %d significant digits" % (name, fm, digits), sample={"rule": "C12.2", "writer": name, "format": fm})
         if name == "csv":
@@ -153,17 +259,46 @@ def check_writers(ctx):
            msg="csv header construction changed")
     ctx.ob("C12.1", "verif.output.Output.text", "for w in descs.keys():" in t["src"] and "for i in range(len(ylabels)):" in t["src"], "text header: descriptor names then one column per input",
            msg="text header construction changed")
-    # sibling case analysis
+    # sibling case analysis - by value: the folded writers (helpers seen through) contain the chain
+    #   descs = {"Threshold": thresholds} if axis == Threshold() else {"Observed": ...} if axis == Obs() else ... get_axis_descriptions(axis)
+    def descriptor_cases(name):
+        evw_ = trace.trace(prog, "verif.output.Output." + name, loop_mode="unroll2")
+        found, default = {}, False
+        for e in evw_.events:
+            for k_ in ("value", "operand"):
+                v = e.get(k_)
+                if not isinstance(v, Rat) or "verif.axis." not in v.key():
+                    continue
+                for a in q.atoms(v, "ifexp"):
+                    cnd = a.args[0].key() if isinstance(a.args[0], Rat) else ""
+                    # the positive axis test of the condition (an early-return chain gives `not(previous tests) and this one`)
+                    pos = [m_ for m_ in re.finditer(r"cmp_eq\(\$self\.axis - call:verif\.axis\.(\w+)\(\),0\)", cnd)
+                           if not cnd[:m_.start()].endswith("not(")]
+                    mm = pos[0] if len(pos) == 1 else None
+                    th = a.args[1].as_atom("pydict") if isinstance(a.args[1], Rat) else None
+                    if mm and th is not None and th.args and isinstance(th.args[0], tuple) and len(th.args[0]) == 2:
+                        kk, vv = th.args[0]
+                        found[mm.group(1)] = (symeval._strval(kk), vv.key() if isinstance(vv, Rat) else str(vv))
+                if "call:data.get_axis_descriptions($self.axis)" in v.key():
+                    default = True
+        return found, default
+    try:
+        dt, dc = descriptor_cases("text"), descriptor_cases("csv")
+    except (symeval.Undecided, AnalysisError):
+        dt = dc = ({}, False)
+
     def cases(src):
         return sorted(set(re.findall(r"self\.axis == (verif\.axis\.\w+\(\))", src)))
     ct, cc = cases(t["src"]), cases(c["src"])
-    ctx.ob("C12.5", "verif.output.Output", ct == cc and len(ct) >= 3, "text() and csv() build descriptors for the same axis cases %s" % ct,
-           msg="text() handles %s, csv() handles %s" % (ct, cc))
-    for name, fx in (("text", t), ("csv", c)):
+    same_cases = (ct == cc and len(ct) >= 3) or (dt[0] == dc[0] and len(dt[0]) >= 3)
+    ctx.ob("C12.5", "verif.output.Output", same_cases, "text() and csv() build descriptors for the same axis cases %s" % (ct or sorted(dt[0])),
+           msg="text() handles %s, csv() handles %s" % (ct or sorted(dt[0]), cc or sorted(dc[0])))
+    for name, fx, dv in (("text", t, dt), ("csv", c, dc)):
         for ax, key in (("Threshold", "Threshold"), ("Obs", "Observed"), ("Fcst", "Forecasted")):
             ok = ("self.axis == verif.axis.%s():\n" % ax) in fx["src"] and ("descs = {'%s': self.thresholds}" % key) in fx["src"]
+            ok = ok or dv[0].get(ax) == (key, "$self.thresholds")
             ctx.ob("C12.5", "verif.output.Output." + name, ok, "-x %s rows are identified by the thresholds (column '%s')" % (ax.lower(), key), msg="%s: -x %s descriptor changed" % (name, ax.lower()))
-        ctx.ob("C12.5", "verif.output.Output." + name, "descs = data.get_axis_descriptions(self.axis)" in fx["src"], "other axes use data.get_axis_descriptions(self.axis)",
+        ctx.ob("C12.5", "verif.output.Output." + name, "descs = data.get_axis_descriptions(self.axis)" in fx["src"] or dv[1], "other axes use data.get_axis_descriptions(self.axis)",
                msg="%s does not use get_axis_descriptions" % name)
 
 
@@ -237,6 +372,6 @@ CLAIM = {
              "screen output, agreement of the two writers' case analyses and descriptor keys. Necessary conditions; no output is produced.",
     "note": "Trusted: CPython ast, vsa symbolic folding, Python %-format semantics. Several writer obligations are syntactic patterns over "
             "Output.text/csv as written today. Ascending row order follows from C03.2.",
-    "technique": "static analysis: symbolic folding of _get_x_y with event log (index provenance of column stores), loop/index patterns, "
+    "technique": "static analysis: C12.4 the returned table taken apart by cases (shared with C16.6); C12.6 element-type / precision lint on row descriptors; symbolic folding of _get_x_y with event log (index provenance of column stores), loop/index patterns, "
                  "format-string parsing, sibling case comparison",
 }
